@@ -392,20 +392,12 @@ impl Machine {
         let cls = self.closures.get_mut(id.0).unwrap();
         cls.refcount -= 1;
         if cls.refcount == 0 {
-            let raw_refs = self
-                .closures
-                .get(id.0)
-                .unwrap()
-                .upvalues
-                .iter()
-                .filter_map(|v| {
-                    let v = v.borrow();
-                    match &*v {
-                        UpValue::Closed(data, true) => Some(data[0]),
-                        _ => None,
-                    }
-                })
-                .collect::<Vec<_>>();
+            // A closure that never escaped (`is_closed`) has retained nothing.
+            let raw_refs = if cls.is_closed {
+                self.get_closure_upvalue_refs(id)
+            } else {
+                vec![]
+            };
             let refs = raw_refs
                 .into_iter()
                 .filter_map(|raw| {
@@ -867,28 +859,25 @@ impl Machine {
         let clsidx = Self::get_as::<ClosureIdx>(self.get_stack(src as _));
         self.close_upvalues_by_idx(clsidx);
     }
-    /// Close all open upvalues of the given closure, copying stack values into
-    /// the upvalue cells so the closure can outlive the current stack frame.
+    /// The current values of the function-typed upvalues of the given closure.
+    fn get_closure_upvalue_refs(&self, clsidx: ClosureIdx) -> Vec<RawVal> {
+        self.get_closure(clsidx)
+            .upvalues
+            .iter()
+            .filter_map(|upv| match &*upv.borrow() {
+                UpValue::Open(ov) => ov.is_closure.then(|| self.get_open_upvalue(*ov).1[0]),
+                UpValue::Closed(v, is_closure) => (*is_closure).then_some(v[0]),
+            })
+            .collect()
+    }
+    /// Let the given closure outlive the scope that created it: it is not dropped with that
+    /// scope and retains the closures its upvalues refer to. Its open upvalues stay open, so
+    /// that the function that owns the variables and every closure that captured them keep
+    /// sharing them; `close_frame_upvalues` closes them when that function returns.
     fn close_upvalues_by_idx(&mut self, clsidx: ClosureIdx) {
         // Collect closure references to retain. Function-typed upvalues may be
         // stored either as heap-backed closures or as direct closure refs.
-        let raw_refs = self
-            .get_closure(clsidx)
-            .upvalues
-            .iter()
-            .filter_map(|upv| {
-                let upv = &mut *upv.borrow_mut();
-                match upv {
-                    UpValue::Open(ov) => {
-                        let (_range, ov_raw) = self.get_open_upvalue(*ov);
-                        let is_closure = ov.is_closure;
-                        *upv = UpValue::Closed(ov_raw.to_vec(), is_closure);
-                        is_closure.then_some(ov_raw[0])
-                    }
-                    UpValue::Closed(v, is_closure) => (*is_closure).then_some(v[0]),
-                }
-            })
-            .collect::<Vec<_>>();
+        let raw_refs = self.get_closure_upvalue_refs(clsidx);
         let refs = raw_refs
             .into_iter()
             .filter_map(|raw| {
@@ -912,6 +901,17 @@ impl Machine {
         verif::record_heap(b'c', b'C', clsidx.0, self.closures.contains_key(clsidx.0), self.closures.get(clsidx.0).map_or(0, |c| c.refcount));
         let cls = self.get_closure_mut(clsidx);
         cls.is_closed = true;
+    }
+    /// Close the upvalues that refer to registers of the function about to return: the values
+    /// move from the stack into the cells shared by the closures that captured them.
+    fn close_frame_upvalues(&mut self, upv_map: &LocalUpValueMap) {
+        for (_pos, upv) in upv_map.0.iter() {
+            let upv = &mut *upv.borrow_mut();
+            if let UpValue::Open(ov) = upv {
+                let (_range, ov_raw) = self.get_open_upvalue(*ov);
+                *upv = UpValue::Closed(ov_raw.to_vec(), ov.is_closure);
+            }
+        }
     }
     fn release_open_closures(&mut self, local_closures: &[ClosureIdx]) {
         for clsidx in local_closures.iter() {
@@ -1181,12 +1181,14 @@ impl Machine {
                     }
                 }
                 Instruction::Return0 => {
+                    self.close_frame_upvalues(&upv_map);
                     self.stack.truncate((self.base_pointer - 1) as usize);
                     self.release_open_closures(&local_closures);
                     self.release_heap_closures(&local_heap_closures);
                     return 0;
                 }
                 Instruction::Return(iret, nret) => {
+                    self.close_frame_upvalues(&upv_map);
                     let _ = self.return_general(iret, nret);
                     self.release_open_closures(&local_closures);
                     self.release_heap_closures(&local_heap_closures);
